@@ -115,16 +115,19 @@ func verif_TCPGroup_Listen(tg *TCPGroup, proxyName string, group string, groupKe
 
 // Monitor invariant of a tcp group: a live group has an open accept channel; a
 // group with members is live and has its real listener; a dead group has no
-// members. (This is what makes "close the channel once" provable.)
+// members. (This is what makes "close the channel once" provable.) The accept
+// channel is unbuffered: a user connection is handed to a member that is
+// accepting or the hand-off fails and the worker closes it - it is never parked
+// where nobody would close it (C11 "never orphaned").
 //
 //verif:invariant TCPGroup mu
 func (tg *TCPGroup) verifInvLive() bool {
-	return (tg.closed || (tg.acceptCh != nil && !verif.Closed(tg.acceptCh))) &&
+	return (tg.closed || (tg.acceptCh != nil && !verif.Closed(tg.acceptCh) && verif.ChanCap(tg.acceptCh) == 0)) &&
 		(len(tg.lns) == 0 || (!tg.closed && tg.tcpLn != nil))
 }
 
 //verif:contract ~/server/group.NewTCPGroup
-//verif:props C13
+//verif:props C13 C11
 func verif_NewTCPGroup(ctl *TCPGroupCtl) {
 	tg := NewTCPGroup(ctl)
 	verif.Ensures(tg != nil && tg.verifInvLive() && tg.ctl == ctl && len(tg.lns) == 0 && !tg.closed, "establishes_invariant")
@@ -221,6 +224,11 @@ func verif_HTTPGroup_Register(g *HTTPGroup, proxyName, group, groupKey string, r
 			verif.Ensures(verif.CallCount(evAdd) == 1 && verif.CalledWith(evAdd, 1, routeConfig.Domain) && verif.CalledWith(evAdd, 2, routeConfig.Location) && verif.CalledWith(evAdd, 3, routeConfig.RouteByHTTPUser), "first_member_registers_the_route")
 			verif.Ensures(g.group == group && g.groupKey == groupKey && g.domain == routeConfig.Domain && g.location == routeConfig.Location && g.routeByHTTPUser == routeConfig.RouteByHTTPUser, "first_member_sets_params")
 			verif.Ensures(verif.Has(g.createFuncs, proxyName) && len(g.createFuncs) == 1, "first_member_joined")
+			// the route carries the group's dispatchers, not the first member's own
+			// connection function: requests (CONNECT included) rotate over the
+			// live members and stop reaching a member that left
+			rc, isRC := verif.NthArg[any](evAdd, 0, 4).(*vhost.RouteConfig)
+			verif.Ensures(isRC && verif.HandlerName(rc.CreateConnFn) == "createConn" && verif.HandlerName(rc.ChooseEndpointFn) == "chooseEndpoint" && verif.HandlerName(rc.CreateConnByEndpointFn) == "createConnByEndpoint", "route_dispatches_through_the_group")
 		}
 	} else {
 		verif.Ensures(!verif.Called(evAdd), "join_registers_no_route")
